@@ -111,6 +111,16 @@ func (fi *redisFileInfo) Sys() interface{} {
 
 const defaultCount = 10
 
+// redisGlobEscaper escapes the characters that are special in Redis glob-style patterns (SCAN ... MATCH).
+var redisGlobEscaper = strings.NewReplacer(`\`, `\\`, `*`, `\*`, `?`, `\?`, `[`, `\[`, `]`, `\]`)
+
+// scanPattern returns the SCAN pattern matching everything under the directory "path". The path itself is
+// matched literally: a key directory may contain characters like '[' or '*' which must not act as wildcards,
+// otherwise the directory listing misses its own files and finds files of other directories.
+func scanPattern(path string) string {
+	return redisGlobEscaper.Replace(path) + "/*"
+}
+
 func (r *redisStorage) Stat(path string) (os.FileInfo, error) {
 	count, err := r.client.Exists(path).Result()
 	if err != nil {
@@ -135,7 +145,7 @@ func (r *redisStorage) Stat(path string) (os.FileInfo, error) {
 	}
 	// If a key does not exist at given path then it might be a directory
 	// if the path is a prefix of some existing key.
-	keys, _, err := r.client.Scan(0, path+"/*", defaultCount).Result()
+	keys, _, err := r.client.Scan(0, scanPattern(path), defaultCount).Result()
 	if err != nil {
 		return nil, err
 	}
@@ -162,7 +172,7 @@ func (r *redisStorage) ReadDir(path string) ([]os.FileInfo, error) {
 	keys := make([]string, 0)
 	var cursor uint64
 	for {
-		nextKeys, nextCursor, err := r.client.Scan(cursor, path+"/*", defaultCount).Result()
+		nextKeys, nextCursor, err := r.client.Scan(cursor, scanPattern(path), defaultCount).Result()
 		if err != nil {
 			return nil, err
 		}
@@ -248,7 +258,7 @@ func (r *redisStorage) TempDir(pattern string, perm os.FileMode) (string, error)
 		if err != nil || n > 0 {
 			continue
 		}
-		keys, _, err := r.client.Scan(0, path+"/*", defaultCount).Result()
+		keys, _, err := r.client.Scan(0, scanPattern(path), defaultCount).Result()
 		if err != nil || len(keys) > 0 {
 			continue
 		}
@@ -319,7 +329,7 @@ func (r *redisStorage) RemoveAll(path string) error {
 	// "${path}" nor any "${path}/*" refers to anything anymore.
 	var cursor uint64
 	for {
-		nextKeys, nextCursor, err := r.client.Scan(cursor, path+"/*", defaultCount).Result()
+		nextKeys, nextCursor, err := r.client.Scan(cursor, scanPattern(path), defaultCount).Result()
 		if err != nil {
 			return err
 		}
